@@ -52,15 +52,16 @@ type Delivery struct {
 }
 
 type Analysis struct {
-	h          *H
-	m          *Model
-	ops        []*OpResult
-	buildOp    *OpResult
-	buildOK    bool
-	finOp      *OpResult
-	deliveries []Delivery
-	faultInOp  map[int]bool // op gid -> a constructor fault fired in its extent
-	vs         []Violation
+	h              *H
+	m              *Model
+	ops            []*OpResult
+	buildOp        *OpResult
+	buildOK        bool
+	finOp          *OpResult
+	deliveries     []Delivery
+	faultInOp      map[int]bool // op gid -> a constructor fault fired in its extent
+	buildCancelled bool         // the build context was cancelled inside a constructor
+	vs             []Violation
 }
 
 func (a *Analysis) add(prop, rule, shape, format string, args ...any) {
@@ -153,6 +154,12 @@ func analyse(h *H) *Analysis {
 	for _, inv := range h.invs {
 		if inv.Fault != nil && inv.Op >= 0 {
 			a.faultInOp[inv.Op] = true
+		}
+	}
+	for _, f := range h.faults {
+		if f.Kind == FBuildCancel && f.Fired > 0 && a.buildOp != nil {
+			a.faultInOp[a.buildOp.GID] = true
+			a.buildCancelled = true
 		}
 	}
 	a.collectDeliveries()
